@@ -4,8 +4,9 @@ C11 — model of `midgard.parsers.rinex2_obs.Rinex2Parser` (on `Model/ChainParse
 Header handlers, the label heuristics of the observation block, the epoch record with its
 satellite-list continuation lines and the 2-digit year resolution, the observation records with
 their per-epoch cache (five observations per line, a satellite is complete after
-`ceil(n/5)` lines), the post-processors.  The model mirrors the code *after* the `fix:` commit of
-this property: an all-blank line inside an epoch whose satellite list is not yet used up is an
+`ceil(n/5)` lines), the post-processors.  The model mirrors the code *after* the `fix:` commits of
+this property: a satellite-list continuation line may end after a single blank-system satellite; the
+sampling test compares with the nearest grid point; an all-blank line inside an epoch whose satellite list is not yet used up is an
 observation line whose five observations are missing.
 -/
 import Midgard.Model.RinexObs
@@ -35,9 +36,6 @@ structure State where
   deriving Repr, DecidableEq
 
 def getv (v : Values) (k : String) : Except Err Str := req (v.get k)
-
-def fieldsWithPrefix (v : Values) (pre : String) : List (String × Str) :=
-  (v.filter fun (k, _) => pre.toList.isPrefixOf k.toList).mergeSort fun a b => a.1 ≤ b.1
 
 /-! ### Header handlers -/
 
@@ -249,6 +247,9 @@ def alphaAt (line : Str) (i : Nat) : Bool := ((charAt line i).map Char.isAlpha).
 def digitAt (line : Str) (i : Nat) : Bool := ((charAt line i).map isDigit).getD false
 def spaceAt (line : Str) (i : Nat) : Bool := ((charAt line i).map isSpace).getD false
 
+/-- `not line[i:i+1].strip()`: a blank or the end of the line -/
+def blankOrEndAt (line : Str) (i : Nat) : Bool := isBlank (Text.slice i (i + 1) line)
+
 /-- Python `s.isspace()`: non-empty and all whitespace -/
 def pyIsSpace (s : Str) : Bool := !s.isEmpty && isBlank s
 
@@ -256,7 +257,7 @@ def pyIsSpace (s : Str) : Bool := !s.isEmpty && isBlank s
 def obsLabel (line : Str) : String :=
   if (charAt line 10 = some '.' || pyIsSpace (Text.slice 0 16 line))
       && !alphaAt line 32
-      && !(digitAt line 34 && spaceAt line 35)
+      && !(digitAt line 34 && blankOrEndAt line 35)
       && !alphaAt line 60 then "True" else "False"
 
 def obsParser : ParserDef State where
